@@ -1812,6 +1812,8 @@ def make_builtins(I):
             yield st, round(v)
         elif z3.is_int(v):
             yield st, v
+        elif z3.is_app_of(v, z3.Z3_OP_TO_REAL):
+            yield st, v.arg(0)  # the real is an integer: round is the identity
         else:
             I.trust("round", "A1: round(x) is round-half-to-even over the reals")
             yield st, ops.z_round_half_even(v)
@@ -2361,6 +2363,31 @@ def make_ext_modules(I):
             s = I.func("sin", z3.RealSort(), z3.RealSort())
             c = I.func("cos", z3.RealSort(), z3.RealSort())
             I.trust("trig", "A1: sin/cos are uninterpreted reals with sin^2+cos^2=1, |.|<=1 and exact values at 0")
+            q = ops.pi_coeff(zx)
+            if q is not None:
+                # the argument is q * pi identically: exact values at the multiples of pi / 6 (concrete q) or pi / 3
+                # (symbolic q: sound instances "3q is the integer n and n mod 6 = r -> sin = S_r, cos = C_r")
+                I.trust("trig-exact", "A1: sin/cos at integer multiples of pi/6 (pi/3 for a symbolic multiple) have their exact values 0, +-1/2, +-sqrt(3)/2, +-1")
+                r3 = None
+                for st3, v3 in ops.sqrt(I, st, 3):
+                    if not isinstance(v3, Exc):
+                        st, r3 = st3, v3
+                if r3 is None:
+                    raise Unsupported("sqrt(3) for exact trigonometric values")
+                h, z, o = z3.RealVal("1/2"), z3.RealVal(0), z3.RealVal(1)
+                sq = r3 / 2
+                COS12 = [o, sq, h, z, -h, -sq, -o, -sq, -h, z, h, sq]
+                SIN12 = [z, h, sq, o, sq, h, z, -h, -sq, -o, -sq, -h]
+                if isinstance(q, Fraction):
+                    if (6 * q).denominator == 1:
+                        n = int(6 * q) % 12
+                        yield st, (SIN12[n] if which == "sin" else COS12[n])
+                        return
+                else:
+                    n3 = z3.ToInt(3 * q)
+                    isint = z3.ToReal(n3) == 3 * q
+                    for r in range(6):
+                        st.pc.append(z3.Implies(z3.And(isint, n3 % 6 == r), z3.And(s(zx) == SIN12[2 * r], c(zx) == COS12[2 * r])))
             st.pc.append(s(zx) * s(zx) + c(zx) * c(zx) == 1)
             I.axiom("sin0", s(z3.RealVal(0)) == 0)
             I.axiom("cos0", c(z3.RealVal(0)) == 1)
